@@ -1224,7 +1224,7 @@ pub fn run(cfg: &Cfg) -> Report {
     let t = &case.tbl;
     let req = &reqs2[ci];
     let (parts, ans) = match (&laid[ci], split_top(&ans2[ci])) {
-      (Some(p), Some(a)) if a.len() == 7 => (p, a),
+      (Some(p), Some(a)) if a.len() == 7 || a.len() == 8 => (p, a),
       _ => {
         rep.disagree(Kind::ImplVsModel, "driver", "driver-error", &reqs1[ci], "", &format!("{} / {}", ans1[ci], ans2[ci]));
         continue;
@@ -1265,6 +1265,15 @@ pub fn run(cfg: &Cfg) -> Report {
       rep.disagree(Kind::ImplVsModel, "scanner", &format!("the scanner model does not read draw t back as planeOf t ({})", t.orient), &text, "", &ans[6].to_string());
     } else {
       rep.hit("scan-inverts-draw:true");
+    }
+    // the generated drawing is a legal one (fitsB: the decidable form of the hypothesis Fits of
+    // scan_marks_of_drawing and recognize_text_roundtrip_stages)
+    if let Some(f) = ans.get(7) {
+      if f.to_string() == "(fits true)" {
+        rep.hit("fits:true");
+      } else {
+        rep.disagree(Kind::ImplVsModel, "scanner", &format!("a generated drawing is not a legal one (fitsB false) ({})", t.orient), &text, "", &f.to_string());
+      }
     }
     let model_plane = str_of(&ans[1].as_list().unwrap()[1]);
     let model_texts = ans[2].to_string();
